@@ -32,6 +32,9 @@ pub enum PosSrc {
     /// the last position report of this parity once more, bit for bit (same type code, altitude
     /// code and CPR values: two receivers feeding one tracker, a replayed capture)
     Again,
+    /// the CPR words the next aircraft sent last in this parity (a rebroadcast twin under another
+    /// address, two aircraft in one CPR cell): two records with a bit-identical position
+    Twin,
     /// latitude fields of an even / odd pair whose zone-index rounding is an exact tie
     /// (59 YZ0 - 60 YZ1 = -65536 (2t + 1)); the longitude field is that of the true position
     Tie { t: u8, k: u16 },
@@ -82,7 +85,8 @@ pub const RX: [(f64, f64); 11] = [(52.0, 4.0), (85.0, 10.0), (0.01, 179.9), (-33
 // (appended: no limit at all - more than half the circumference of the Earth, and infinity)
 pub const RANGES: [f64; 6] = [500.0, 50.0, 20000.0, 0.0, 40075.0, f64::INFINITY];
 // (addresses that differ from the first one in the last, the first or the middle octet only; the all-zero and the all-one address)
-const ADDR: [u32; 6] = [0xabc001, 0xabc002, 0x7cc001, 0xab0001, 0x000000, 0xffffff];
+// (the first two differ in one bit only)
+const ADDR: [u32; 6] = [0xabc001, 0xabc003, 0x7cc001, 0xab0001, 0x000000, 0xffffff];
 
 fn bearing_s() -> impl Strategy<Value = u16> {
     0u16..360
@@ -96,6 +100,7 @@ fn possrc_s() -> impl Strategy<Value = PosSrc> {
         1 => (prop_oneof![4 => 0u32..131072, 1 => Just(0u32), 1 => Just(131071u32)], prop_oneof![4 => 0u32..131072, 1 => Just(0u32), 1 => Just(131071u32)]).prop_map(|(yz, xz)| PosSrc::Raw { yz, xz }),
         2 => Just(PosSrc::Same),
         2 => Just(PosSrc::Again),
+        1 => Just(PosSrc::Twin),
         1 => (0u8..6, 0u16..4).prop_map(|(t, k)| PosSrc::Tie { t, k }),
     ]
 }
@@ -273,6 +278,19 @@ pub fn build(world: &mut World, op: &Op) -> Option<Built> {
                                 (if parity == 0 { yz0 as u32 } else { yz1 as u32 }, e.1)
                             } else {
                                 (e.0, e.1)
+                            }
+                        }
+                        PosSrc::Twin => {
+                            let other = (a + 1) % world.truth.len();
+                            match world.last_raw[other][parity as usize] {
+                                Some(r) => {
+                                    world.truth[a] = world.truth[other];
+                                    r
+                                }
+                                None => {
+                                    let e = refcpr::encode(world.truth[a].0, world.truth[a].1, parity);
+                                    (e.0, e.1)
+                                }
                             }
                         }
                         PosSrc::Same | PosSrc::Again => match world.last_raw[a][parity as usize] {
@@ -972,6 +990,7 @@ fn op_json(o: &Op) -> Value {
                         PosSrc::Raw { yz, xz } => json!({"raw": [yz, xz]}),
                         PosSrc::Same => json!("same"),
                         PosSrc::Again => json!("again"),
+                        PosSrc::Twin => json!("twin"),
                         PosSrc::Tie { t, k } => json!({"tie": [t, k]}),
                     };
                     json!({"position": {"odd": odd, "tc": tc, "alt": alt, "src": s}})
@@ -1012,6 +1031,8 @@ fn op_from(v: &Value) -> Option<Op> {
                 PosSrc::Raw { yz: u(&a[0]) as u32, xz: u(&a[1]) as u32 }
             } else if let Some(a) = s.get("tie").and_then(|x| x.as_array()) {
                 PosSrc::Tie { t: u(&a[0]) as u8, k: u(&a[1]) as u16 }
+            } else if s.as_str() == Some("twin") {
+                PosSrc::Twin
             } else if s.as_str() == Some("again") {
                 PosSrc::Again
             } else {
